@@ -470,6 +470,8 @@ def free_call(tr, name, sig, argn, n):
         return '__CPROVER_assert(0, "ada::unreachable() reached")'
     if name == 'popcount' or name == 'countr_zero' or name == 'countl_zero':
         return 'std_%s(%s)' % (name, tr.e(argn[0]))
+    if name.startswith('__builtin_'):
+        return '%s_model(%s)' % (name, ', '.join(tr.e(a) for a in argn))
     if name.startswith(INTRINSIC_PREFIX):
         return '%s(%s)' % (name, ', '.join(tr.e(a) for a in argn))
     if name == 'operator new' or name == 'operator delete':
